@@ -192,7 +192,8 @@ class World:
         import frappy.lib.asynconn as fa
         import frappy.modulebase as mb
         self.sc = sc
-        self.sched = ds.Scheduler(strategy, max_steps=max_steps, eps=0.0)
+        # (a real poll thread needs a clock that advances: sc['eps'])
+        self.sched = ds.Scheduler(strategy, max_steps=max_steps, eps=sc.get('eps', 0.0), wait_eps=sc.get('eps', 0.0))
         self.dev = Device(sc)
         self.dead = False
         extra = {}
